@@ -211,3 +211,19 @@ End IdealStatements.
 Redirect "C16_sidereal_ideal.assumptions" Print Assumptions IdealStatements.C16_sidereal_ideal.
 Redirect "C16_sidereal_rate.assumptions" Print Assumptions IdealStatements.C16_sidereal_rate.
 Redirect "C16_apparent_ideal.assumptions" Print Assumptions IdealStatements.C16_apparent_ideal.
+
+(* binary64 instance, EVERY finite JDE j in [0, 2^51) (not only the civil instants of the kernel
+   computations above): Epoch(j).dow() = floor(j + 1.5) mod 7.  RV j is the real value of the float j
+   (PyLib.B64Verified, Flocq's semantics of binary64).  Hence the weekday is constant over the whole
+   civil day [n - 0.5, n + 0.5) for ALL its binary64 instants, and advances by one from day to day. *)
+Module B64AllFloats.
+From Coq Require Import Reals.
+From PyLib Require B64Verified.
+From Proofs.C16 Require C16_b64.
+Theorem C16_dow_b64 : forall j : float, B64Verified.fin j ->
+  (0 <= B64Verified.RV j < 2251799813685248)%R ->
+  Epoch_dow B0 (VObj cEpoch [VFloat j]) (VBool false)
+  = VInt (Raux.Zfloor (B64Verified.RV j + 3 / 2)%R mod 7).
+Proof. exact C16_b64.dow_b64. Qed.
+End B64AllFloats.
+Redirect "C16_dow_b64.assumptions" Print Assumptions B64AllFloats.C16_dow_b64.
